@@ -32,6 +32,8 @@ def checkGrp : P String := do
   let ω := tab.toOracle
   expect "F"
   let f ← pFrame
+  -- sums and means are compared at the magnitude of what was summed (see `cellApproxS`)
+  let sc := frameMag ω f
   expect "LIST"
   let list ← pBool
   let keys ← pList pStr
@@ -94,7 +96,7 @@ def checkGrp : P String := do
         | .err e => .err e
         | .panic p => .panic p
       match mres, res with
-      | .ok m, some x => if !frameApprox m x then corr := firstFail corr s!"fail:{kind}-differs"
+      | .ok m, some x => if !frameApproxS sc m x then corr := firstFail corr s!"fail:{kind}-differs"
       | .err _, none => pure ()
       | _, _ => corr := firstFail corr s!"fail:{kind}-status"
       -- C05 spec, evaluated on the specification's partition (independent of the implementation's grouping)
@@ -115,8 +117,8 @@ def checkGrp : P String := do
           col.length == specGroups.length &&
           (col.zip specGroups).all (fun (v, s) =>
             match kind with
-            | "sum" => cellApprox v (.flt false (Spec.groupSumSpec s.2 c))
-            | "mean" => cellApprox v (.flt false (Spec.groupMeanSpec s.2 c))
+            | "sum" => cellApproxS sc v (.flt false (Spec.groupSumSpec s.2 c))
+            | "mean" => cellApproxS sc v (.flt false (Spec.groupMeanSpec s.2 c))
             | _ => v == .int .int s.2.length))
         let okNames := x.keys == Spec.sortedUnion [sGroupKey] useCols
         if !(okShape && okCols && okNames) || dup then c05 := firstFail c05 s!"fail:{kind}"
@@ -133,9 +135,9 @@ def checkGrp : P String := do
         -- the column total is comparable when every cell is a number of a width both sides accept
         if col.all (fun x => (numOf x).isSome) then
           let groupTotal := FVal.sum (specGroups.map (fun s => Spec.groupSumSpec s.2 k))
-          if !cellApprox c (.flt false groupTotal) then c05 := firstFail c05 "fail:conservation"
+          if !cellApproxS sc c (.flt false groupTotal) then c05 := firstFail c05 "fail:conservation"
           let implTotal := FVal.sum (implGroups.map (fun g => Spec.groupSumSpec g.2 k))
-          if !cellApprox c (.flt false implTotal) then c05 := firstFail c05 "fail:conservation-impl-groups"
+          if !cellApproxS sc c (.flt false implTotal) then c05 := firstFail c05 "fail:conservation-impl-groups"
   expect "AFTER"
   let after ← pFrame
   if after != f then c04 := firstFail c04 "fail:source-changed"
